@@ -44,8 +44,11 @@ BaseAttr(c) ==
     [] c = 4 -> [acct |-> 1, scope |-> "bip84", val |-> 1, cb |-> FALSE]
     [] c = 5 -> [acct |-> 0, scope |-> "bip84", val |-> 16, cb |-> TRUE]
     [] c = 6 -> [acct |-> 0, scope |-> "bip86", val |-> 32, cb |-> FALSE]
+    [] c = 7 -> [acct |-> 0, scope |-> "bip49", val |-> 64, cb |-> FALSE]     \* nested pay-to-witness-key-hash
+    [] c = 8 -> [acct |-> 0, scope |-> "bip44", val |-> 128, cb |-> FALSE]    \* legacy pay-to-pubkey-hash
 
-Scopes == {"bip84", "bip86"}
+\* key scopes requests are made for: those of the base coins in play
+Scopes == {BaseAttr(c).scope : c \in 1..NBase}
 Accts  == {0, 1}
 
 VARIABLES
